@@ -76,8 +76,27 @@ try:
     if failed0:
         print("DEMO FAILS ON THE UNCHANGED TREE\n" + out0[-2000:]); ok = False
     rc, out = sh(["git", "apply", "--whitespace=nowarn", patch], wt)
+    ported = False
     if rc != 0:
         rc, out = sh(["git", "apply", "--3way", "--whitespace=nowarn", patch], wt)
+        if rc != 0 and "with conflicts" in out:
+            # /repo has moved on since the change was written: keep the change's side of every conflict
+            # (validity is re-established below: build, suite, demonstration)
+            import re
+            rc2, files = sh("git diff --name-only --diff-filter=U", wt)
+            conflicted = {f: open(os.path.join(wt, f)).read() for f in files.split()}
+            sh("git reset -q", wt)
+            outb = ""
+            for how, pick in (("both sides kept", lambda m: m.group(1) + m.group(2)), ("in favour of the change", lambda m: m.group(2))):
+                for f, txt in conflicted.items():
+                    open(os.path.join(wt, f), "w").write(re.sub(r"<<<<<<< ours\n(.*?)=======\n(.*?)>>>>>>> theirs\n", pick, txt, flags=re.S))
+                rcb, outb = sh("go build ./... 2>&1 | tail -5", wt)
+                if not [l for l in outb.splitlines() if ".go:" in l]:
+                    rc, ported = 0, True
+                    meta["ran"].append("patch ported to HEAD: conflicts resolved, " + how)
+                    break
+            if not ported:
+                rc, out = 1, out + "\n" + outb
     if rc != 0:
         print("PATCH DOES NOT APPLY\n" + out[-1500:]); ok = False
     else:
@@ -112,7 +131,12 @@ try:
     if a.keep and ok:
         dst = os.path.join("/verif/seeded", a.name)
         os.makedirs(dst, exist_ok=True)
-        if os.path.abspath(dst) != os.path.abspath(a.src):
+        if ported:
+            if not os.path.exists(os.path.join(dst, "patch.orig.diff")) and os.path.exists(os.path.join(dst, "patch.diff")):
+                shutil.copy(os.path.join(dst, "patch.diff"), os.path.join(dst, "patch.orig.diff"))
+            rcp, newpatch = sh("git diff", wt)
+            open(os.path.join(dst, "patch.diff"), "w").write(newpatch)
+        elif os.path.abspath(dst) != os.path.abspath(a.src):
             shutil.copy(patch, os.path.join(dst, "patch.diff"))
             for d in demos:
                 bn = os.path.basename(d)
